@@ -390,6 +390,34 @@ def big_scenarios(prop):
         out.append({"case": f"{prop}-big{n}", "instance": "bgpfu", "eph0": [], "runs": runs, "meta": {"family": "big", "ranges_per_family": n}})
     return out
 
+def transient_scenarios(prop):
+    """C17 at the level of the agent: several policies carry the SAME filter expression, and the IRR answers one
+    query of that expression with an error the first time it sees it (transient trouble).  Whichever policy is
+    evaluated first may fail - the evaluations after it must not inherit that: at most as many policies may be
+    left out as errors were injected, and every one that is installed must be right."""
+    out = []
+    for k, (kind, where, ndup) in enumerate([("F", "set", 3), ("E", "set", 2), ("F", "route4", 3), ("D", "route6", 4), ("F", "set", 5)]):
+        irr = Irr(); running = []; policies = {}
+        expr = irr.asset_with(["a", "b"], ["c"])
+        asn = f"AS{64512 + irr.n}"
+        q = {"set": f"!i{expr},1", "route4": f"!g{asn}", "route6": f"!6{asn}"}[where]
+        irr.db["errors_once"] = {q: kind}
+        for i in range(ndup):
+            name = f"dup-{i}"
+            running.append(stmt(name, f"/* bgpfu-fltr: {expr} */"))
+            policies[name] = exp(True, True, "either", ["a", "b"], ["c"], expr, f"same expression, transient {kind} on {where}")
+            # an error on a route query is sunk: that policy may come out without that family's prefixes
+            if where != "set":
+                policies[name]["partial_ok"] = True
+        cexpr = irr.asset_with(["d"], [])
+        running.append(stmt("control", f"/* bgpfu-fltr: {cexpr} */"))
+        policies["control"] = exp(True, True, "ok", ["d"], [], cexpr, "control")
+        out.append({"case": f"{prop}-tr{k}", "instance": "bgpfu", "eph0": [],
+                    "runs": [{"running": running, "irr": irr.db, "faults": [], "repeat": False,
+                              "expect": {"prop": prop, "c16": False, "policies": policies, "max_transient_failures": 1}}],
+                    "meta": {"family": "transient", "kind": kind, "where": where, "duplicates": ndup}})
+    return out
+
 def daemon_twins(scenarios, every):
     """Every `every`-th scenario once more in daemon mode: ONE agent process performs all its runs (the router's
     running configuration, the IRR data and the router's faults change between the runs of that process) and then
